@@ -22,7 +22,7 @@ def run(ctx):
     vals, groups = fam.generate(ctx, w)
     st = fam.replay_groups(ctx, vh, vals, groups, fam.C01_KINDS, fam.C01_CARRIERS)
     ctx.log("replayed %d vectors (%d groups) through %d real calls: %d mismatches" % (st["vectors"], st["groups"], st["calls"], st["mismatches"]))
-    tp = fam.record_tuples(ctx, vh, 20000 if quick else 1000000)
+    tp = fam.record_tuples(ctx, vh, 80000 if quick else 1000000)
     ctx.log("judged %d recorded random calls: %d rejected" % (tp["judged"], tp["rejected"]))
     cov = dict(
         traces_validated_against_impl=tp["judged"],
